@@ -1,14 +1,1415 @@
-//! C07 — not built yet.
-use crate::engine::{Ctx, Property};
+//! C07 — subsetting preserves the outlines and metrics of retained glyphs.
+//!
+//! (font, glyph id list) pairs → `subset::subset` / `subset::prince::subset` → the output is
+//! read back and compared glyph by glyph with the source font:
+//!
+//! * TrueType: my own glyf/loca/hmtx readers (`refmodel::glyf_lite`) on *both* fonts: identical
+//!   contours, points, on-curve bits, instructions and bounding box; composite trees equal
+//!   modulo the id renumbering; the ids appended after the list are exactly the composite
+//!   closure computed by my own reader; numGlyphs = list + closure.
+//! * CFF / CFF2→CFF: the path delivered by allsorts' outline visitor on the subset equals the
+//!   path delivered on the source (bit-exact f32).
+//! * hmtx: advance and lsb of new id k equal those of old id list[k] (my own hmtx reader,
+//!   including glyphs past numberOfHMetrics).
+
+use crate::engine::util::{pick, truncate};
+use crate::engine::{fixtures, CaseResult, Ctx, Fail, Property, Rec};
+use crate::fontgen::basic::SimpleGlyph;
+use crate::fontgen::sfnt::{find_table, parse_directory};
+use crate::fontgen::ttgen::cffgen::{self, cff_model, CffModel};
+use crate::fontgen::ttgen::{tt_model, woff1_wrap, ArgsModel, GlyphModel, TransformModel, TtModel};
+use crate::refmodel::glyf_lite::{self as gl, Args, Component, GlyphLite, Transform, TtTables};
+use allsorts::binary::read::ReadScope;
+use allsorts::cff::cff2::CFF2;
+use allsorts::cff::outline::CFF2Outlines;
+use allsorts::cff::{CFFVariant, CFF};
+use allsorts::font_data::FontData;
+use allsorts::outline::{OutlineBuilder, OutlineSink};
+use allsorts::pathfinder_geometry::line_segment::LineSegment2F;
+use allsorts::pathfinder_geometry::vector::Vector2F;
+use allsorts::subset::prince::PrinceCmapTarget;
+use allsorts::subset::SubsetError;
+use allsorts::tables::FontTableProvider;
+use proptest::prelude::*;
+use std::collections::{BTreeMap, BTreeSet, VecDeque};
+use std::sync::{Arc, Mutex, OnceLock};
 
 pub struct C07;
+
+fn fail(sig: &str, msg: String) -> Fail {
+    Fail::new(format!("C07:{}", sig), msg)
+}
+
+// ------------------------------------------------------------------------------------------
+// case model
+
+#[derive(Clone, Debug)]
+pub enum Api {
+    /// `subset::subset`
+    Plain,
+    /// `subset::prince::subset`; target 0 unrestricted, 1 MacRoman, 2 omit, 3 supplied array
+    Prince { target: u8, cid: bool },
+}
+
+#[derive(Clone, Debug)]
+pub struct ListSpec {
+    /// 0 ascending, 1 as drawn (shuffled), 2 descending
+    pub order: u8,
+    /// 0 any glyph, 1 composite parents only, 2 component glyphs only, 3 half parents + any
+    pub mode: u8,
+    /// one draw per requested glyph besides glyph 0
+    pub picks: Vec<u32>,
+}
+
+#[derive(Clone, Debug)]
+pub struct FixtureCase {
+    pub font: u32,
+    pub list: ListSpec,
+    pub api: Api,
+    /// re-wrap a bare sfnt fixture as WOFF 1.0 with my own encoder
+    pub rewrap: bool,
+}
+
+#[derive(Clone, Debug)]
+pub struct GenCffCase {
+    pub model: CffModel,
+    pub list: ListSpec,
+    pub api: Api,
+    pub rewrap: bool,
+}
+
+#[derive(Clone, Debug)]
+pub struct GenCase {
+    pub model: TtModel,
+    pub list: ListSpec,
+    pub api: Api,
+    pub rewrap: bool,
+}
+
+fn api_strategy() -> impl Strategy<Value = Api> {
+    prop_oneof![
+        4 => Just(Api::Plain),
+        4 => (0u8..4, any::<bool>()).prop_map(|(target, cid)| Api::Prince { target, cid }),
+    ]
+}
+
+fn list_strategy(big: bool) -> impl Strategy<Value = ListSpec> {
+    let size = if big {
+        prop_oneof![40 => 1usize..=12, 3 => 250usize..=300, 2 => 254usize..=258, 2 => 598usize..=602].boxed()
+    } else {
+        // generated fonts: small lists, or most of the font (the draw is capped by the font)
+        prop_oneof![20 => 1usize..=12, 1 => 250usize..=300, 1 => 254usize..=258].boxed()
+    };
+    (size, 0u8..3, prop_oneof![3 => Just(0u8), 2 => Just(1u8), 2 => Just(2u8), 2 => Just(3u8)])
+        .prop_flat_map(|(n, order, mode)| {
+            (prop::collection::vec(any::<u32>(), n - 1), Just(order), Just(mode))
+        })
+        .prop_map(|(picks, order, mode)| ListSpec { order, mode, picks })
+}
+
+/// `[0] ++` distinct ids drawn from the pools selected by `spec.mode`.
+fn build_list(num_glyphs: u16, composites: &[u16], components: &[u16], spec: &ListSpec) -> Vec<u16> {
+    let any: Vec<u16> = (1..num_glyphs).collect();
+    let parents: Vec<u16> = composites.iter().copied().filter(|g| *g != 0).collect();
+    let comps: Vec<u16> = components.iter().copied().filter(|g| *g != 0).collect();
+    let want = spec.picks.len().min(any.len());
+    let mut chosen: Vec<u16> = Vec::with_capacity(want + 1);
+    let mut taken: BTreeSet<u16> = BTreeSet::new();
+    let draw_from = |pool: &[u16], count: usize, picks: &[u32], chosen: &mut Vec<u16>, taken: &mut BTreeSet<u16>| {
+        let mut pool: Vec<u16> = pool.iter().copied().filter(|g| !taken.contains(g)).collect();
+        for r in picks.iter().take(count) {
+            if pool.is_empty() {
+                break;
+            }
+            let g = pool.swap_remove(pick(pool.len(), *r));
+            taken.insert(g);
+            chosen.push(g);
+        }
+    };
+    match spec.mode {
+        1 if !parents.is_empty() => draw_from(&parents, want, &spec.picks, &mut chosen, &mut taken),
+        2 if !comps.is_empty() => draw_from(&comps, want, &spec.picks, &mut chosen, &mut taken),
+        3 if !parents.is_empty() => {
+            let half = (want + 1) / 2;
+            draw_from(&parents, half, &spec.picks, &mut chosen, &mut taken);
+            let got = chosen.len();
+            draw_from(&any, want - got, &spec.picks[got.min(spec.picks.len())..], &mut chosen, &mut taken);
+        }
+        _ => draw_from(&any, want, &spec.picks, &mut chosen, &mut taken),
+    }
+    match spec.order {
+        0 => chosen.sort(),
+        2 => {
+            chosen.sort();
+            chosen.reverse();
+        }
+        _ => {}
+    }
+    let mut list = vec![0u16];
+    list.extend(chosen);
+    list
+}
+
+// ------------------------------------------------------------------------------------------
+// fixture catalogue and cache
+
+#[derive(Clone, Debug)]
+struct Entry {
+    path: String,
+    weight: u32,
+    thorough_only: bool,
+}
+
+fn catalogue() -> &'static Vec<Entry> {
+    static CAT: OnceLock<Vec<Entry>> = OnceLock::new();
+    CAT.get_or_init(|| {
+        let mut v = Vec::new();
+        for path in fixtures::list("fonts", &["ttf", "otf", "woff", "woff2"], 4 << 20) {
+            let len = std::fs::metadata(fixtures::tests_dir().join(&path)).map(|m| m.len()).unwrap_or(0);
+            let name = path.rsplit('/').next().unwrap_or("");
+            let special = [
+                "SFNT-TTF-Composite.ttf",
+                "SFNT-TTF-Composite.woff2",
+                "OpenSans-Regular.ttf",
+                "Klei.otf",
+                "SourceCodePro-Regular.otf",
+                "SourceSans3-Instance.256.otf",
+                "SourceSans3.abc.otf",
+                "test-font.ttf",
+                "test-font.woff2",
+            ]
+            .contains(&name);
+            let weight = if special {
+                24
+            } else if len < 16 << 10 {
+                6
+            } else if len < 128 << 10 {
+                3
+            } else {
+                2
+            };
+            // the one big CID-keyed font: few cases in the quick tier, many in the thorough tier
+            let big = len > 1 << 20;
+            v.push(Entry {
+                path,
+                weight: if big { 5 } else { weight },
+                thorough_only: false,
+            });
+            if big {
+                v.push(Entry {
+                    path: v.last().unwrap().path.clone(),
+                    weight: 40,
+                    thorough_only: true,
+                });
+            }
+        }
+        v
+    })
+}
+
+fn choose_entry(r: u32, thorough: bool) -> Option<&'static Entry> {
+    let cat = catalogue();
+    let usable: Vec<&Entry> = cat.iter().filter(|e| thorough || !e.thorough_only).collect();
+    let total: u32 = usable.iter().map(|e| e.weight).sum();
+    if total == 0 {
+        return None;
+    }
+    let mut x = pick(total as usize, r) as u32;
+    for e in usable {
+        if x < e.weight {
+            return Some(e);
+        }
+        x -= e.weight;
+    }
+    None
+}
+
+#[derive(Clone, Copy, Debug, PartialEq)]
+enum Kind {
+    Tt,
+    Cff,
+    Cff2,
+}
+
+/// What the oracle knows about a source font. For a bare sfnt the tables are located with my
+/// own directory reader; for WOFF/WOFF2 fixtures they are the tables the provider hands to
+/// the subsetter (decoding those containers is C10/C11's subject).
+struct Source {
+    name: String,
+    container: &'static str,
+    kind: Kind,
+    num_glyphs: u16,
+    tt: Option<TtTables>,
+    hmtx: Vec<u8>,
+    num_h_metrics: u16,
+    /// `CFF ` or `CFF2` table
+    cff: Vec<u8>,
+    composites: Vec<u16>,
+    components: Vec<u16>,
+}
+
+impl Source {
+    fn metric(&self, g: u16) -> Option<(u16, i16)> {
+        if g >= self.num_glyphs {
+            return None;
+        }
+        gl::hmtx_metric(&self.hmtx, self.num_h_metrics, g)
+    }
+}
+
+fn container_of(bytes: &[u8]) -> &'static str {
+    match bytes.get(0..4) {
+        Some(b"wOFF") => "woff",
+        Some(b"wOF2") => "woff2",
+        Some(b"ttcf") => "ttc",
+        _ => "sfnt",
+    }
+}
+
+fn analyse(name: &str, bytes: &[u8]) -> Result<Source, String> {
+    let container = container_of(bytes);
+    let get: Box<dyn Fn(&[u8; 4]) -> Option<Vec<u8>>> = if container == "sfnt" {
+        Box::new(|t: &[u8; 4]| find_table(bytes, t).map(|s| s.to_vec()))
+    } else {
+        let fd = ReadScope::new(bytes).read::<FontData<'_>>().map_err(|e| format!("container: {:?}", e))?;
+        let prov = fd.table_provider(0).map_err(|e| format!("provider: {:?}", e))?;
+        let mut m: BTreeMap<[u8; 4], Vec<u8>> = BTreeMap::new();
+        for t in [b"head", b"maxp", b"hhea", b"hmtx", b"loca", b"glyf", b"CFF ", b"CFF2"] {
+            if let Ok(Some(d)) = prov.table_data(u32::from_be_bytes(*t)) {
+                m.insert(*t, d.into_owned());
+            }
+        }
+        Box::new(move |t: &[u8; 4]| m.get(t).cloned())
+    };
+    let maxp = get(b"maxp").ok_or("no maxp")?;
+    let hhea = get(b"hhea").ok_or("no hhea")?;
+    let hmtx = get(b"hmtx").ok_or("no hmtx")?;
+    let num_glyphs = gl::maxp_num_glyphs(&maxp).ok_or("short maxp")?;
+    let num_h_metrics = gl::hhea_num_h_metrics(&hhea).ok_or("short hhea")?;
+    let (kind, tt, cff) = if get(b"glyf").is_some() && get(b"loca").is_some() {
+        (Kind::Tt, Some(TtTables::from_tables(&get)?), Vec::new())
+    } else if let Some(c) = get(b"CFF ") {
+        (Kind::Cff, None, c)
+    } else if let Some(c) = get(b"CFF2") {
+        (Kind::Cff2, None, c)
+    } else {
+        return Err("no glyf, CFF or CFF2 table".into());
+    };
+    let mut composites = Vec::new();
+    let mut components: BTreeSet<u16> = BTreeSet::new();
+    if let Some(tt) = &tt {
+        for g in 0..num_glyphs {
+            if let Ok(cs) = tt.components_of(g) {
+                if !cs.is_empty() {
+                    composites.push(g);
+                    components.extend(cs.into_iter().filter(|c| *c < num_glyphs));
+                }
+            }
+        }
+    }
+    Ok(Source {
+        name: name.to_string(),
+        container,
+        kind,
+        num_glyphs,
+        tt,
+        hmtx,
+        num_h_metrics,
+        cff,
+        composites,
+        components: components.into_iter().collect(),
+    })
+}
+
+struct Loaded {
+    bytes: Vec<u8>,
+    source: Source,
+    rewrapped: OnceLock<Option<Vec<u8>>>,
+}
+
+fn load(path: &str) -> Option<Arc<Loaded>> {
+    static CACHE: OnceLock<Mutex<BTreeMap<String, Option<Arc<Loaded>>>>> = OnceLock::new();
+    let cache = CACHE.get_or_init(|| Mutex::new(BTreeMap::new()));
+    if let Some(hit) = cache.lock().unwrap_or_else(|e| e.into_inner()).get(path) {
+        return hit.clone();
+    }
+    let loaded = fixtures::read(path).and_then(|bytes| {
+        let source = analyse(path, &bytes).ok()?;
+        Some(Arc::new(Loaded {
+            bytes,
+            source,
+            rewrapped: OnceLock::new(),
+        }))
+    });
+    cache.lock().unwrap_or_else(|e| e.into_inner()).insert(path.to_string(), loaded.clone());
+    loaded
+}
+
+// ------------------------------------------------------------------------------------------
+// calling the subsetter
+
+fn err_class(e: &SubsetError) -> String {
+    match e {
+        SubsetError::Parse(p) => format!("err:parse:{:?}", p).chars().take(40).collect(),
+        SubsetError::Write(w) => format!("err:write:{:?}", w).chars().take(40).collect(),
+        SubsetError::CFF(c) => format!("err:cff:{:?}", c).chars().take(40).collect(),
+        SubsetError::NotDef => "err:notdef".into(),
+        SubsetError::TooManyGlyphs => "err:too-many-glyphs".into(),
+        SubsetError::InvalidFontCount => "err:invalid-font-count".into(),
+    }
+}
+
+fn run_subset(font: &[u8], list: &[u16], api: &Api) -> Result<Result<Vec<u8>, SubsetError>, String> {
+    let fd = ReadScope::new(font).read::<FontData<'_>>().map_err(|e| format!("{:?}", e))?;
+    let prov = fd.table_provider(0).map_err(|e| format!("{:?}", e))?;
+    Ok(match api {
+        Api::Plain => allsorts::subset::subset(&prov, list),
+        Api::Prince { target, cid } => {
+            let target = match target {
+                0 => PrinceCmapTarget::Unrestricted,
+                1 => PrinceCmapTarget::MacRoman,
+                2 => PrinceCmapTarget::Omit,
+                _ => {
+                    let mut a = Box::new([0u8; 256]);
+                    for (k, slot) in a.iter_mut().enumerate().skip(0x41) {
+                        let id = k - 0x40;
+                        if id < list.len() && id < 256 {
+                            *slot = id as u8;
+                        }
+                    }
+                    PrinceCmapTarget::MacRomanCmap(a)
+                }
+            };
+            allsorts::subset::prince::subset(&prov, list, target, *cid)
+        }
+    })
+}
+
+// ------------------------------------------------------------------------------------------
+// TrueType oracle
+
+struct TtOutcome {
+    new_to_old: Vec<u16>,
+    nonblank: usize,
+}
+
+fn cmp_simple_or_blank(g: u16, k: usize, old: &GlyphLite, new: &GlyphLite) -> Result<(), Fail> {
+    if old == new {
+        return Ok(());
+    }
+    if old.is_blank() && new.is_blank() {
+        // a zero-length record and a record without points draw the same (nothing)
+        return Ok(());
+    }
+    Err(fail(
+        "glyph-differs",
+        format!(
+            "new glyph {} differs from source glyph {}: source {} / subset {}",
+            k,
+            g,
+            truncate(&format!("{:?}", old), 500),
+            truncate(&format!("{:?}", new), 500)
+        ),
+    ))
+}
+
+/// Compare the subset `dst` with the source `src` for the requested `list`.
+fn check_tt(src: &TtTables, src_metric: &dyn Fn(u16) -> Option<(u16, i16)>, list: &[u16], dst: &TtTables, rec: &mut Rec) -> Result<TtOutcome, Fail> {
+    let closure = match src.closure(list) {
+        Ok(c) => c,
+        Err(e) => {
+            // the source's composite graph is not readable: nothing can be demanded
+            rec.class("tt:source-closure-unreadable");
+            return Err(fail("skip", e));
+        }
+    };
+    let in_list: BTreeSet<u16> = list.iter().copied().collect();
+    let extra: BTreeSet<u16> = closure.difference(&in_list).copied().collect();
+    let n_new = dst.num_glyphs as usize;
+    if n_new != list.len() + extra.len() {
+        return Err(fail(
+            "num-glyphs",
+            format!(
+                "maxp.numGlyphs of the subset is {}, expected {} requested + {} pulled-in components {:?}",
+                n_new,
+                list.len(),
+                extra.len(),
+                extra.iter().take(20).collect::<Vec<_>>()
+            ),
+        ));
+    }
+    let mut new_to_old: Vec<Option<u16>> = vec![None; n_new];
+    for (k, g) in list.iter().enumerate() {
+        new_to_old[k] = Some(*g);
+    }
+    let mut queue: VecDeque<usize> = (0..list.len()).collect();
+    let mut nonblank = 0usize;
+    let (mut pulled_in, mut renumbered, mut src_unreadable) = (false, false, false);
+    while let Some(k) = queue.pop_front() {
+        let g = new_to_old[k].unwrap();
+        let new = dst
+            .glyph(k as u16)
+            .map_err(|e| fail("subset-glyph-unreadable", format!("new glyph {} (source glyph {}): {}", k, g, e)))?;
+        let old = match src.glyph(g) {
+            Ok(o) => o,
+            Err(e) => {
+                // source record not decodable by the spec reader: demand nothing for this glyph
+                src_unreadable = true;
+                let _ = e;
+                continue;
+            }
+        };
+        if !old.is_blank() {
+            nonblank += 1;
+        }
+        match (&old, &new) {
+            (
+                GlyphLite::Composite {
+                    bbox: ob,
+                    components: oc,
+                    instructions: oi,
+                },
+                GlyphLite::Composite {
+                    bbox: nb,
+                    components: nc,
+                    instructions: ni,
+                },
+            ) => {
+                if ob != nb || oi != ni || oc.len() != nc.len() {
+                    return Err(fail(
+                        "composite-differs",
+                        format!(
+                            "new glyph {} vs source glyph {}: bbox {:?}/{:?}, {} / {} components, instructions {:?} / {:?}",
+                            k,
+                            g,
+                            ob,
+                            nb,
+                            oc.len(),
+                            nc.len(),
+                            truncate(&format!("{:?}", oi), 100),
+                            truncate(&format!("{:?}", ni), 100)
+                        ),
+                    ));
+                }
+                for (i, (o, n)) in oc.iter().zip(nc.iter()).enumerate() {
+                    if o.flags != n.flags || o.args != n.args || o.transform != n.transform {
+                        return Err(fail(
+                            "component-record-differs",
+                            format!("new glyph {} (source {}), component {}: source {:?} subset {:?}", k, g, i, o, n),
+                        ));
+                    }
+                    let c_new = n.glyph as usize;
+                    if c_new >= n_new {
+                        return Err(fail(
+                            "component-renumbering",
+                            format!("new glyph {} (source {}), component {}: refers to glyph {} but the subset has {} glyphs", k, g, i, c_new, n_new),
+                        ));
+                    }
+                    match new_to_old[c_new] {
+                        Some(m) if m == o.glyph => {}
+                        Some(m) => {
+                            return Err(fail(
+                                "component-renumbering",
+                                format!(
+                                    "new glyph {} (source {}), component {}: source refers to glyph {}, subset refers to new glyph {} which is source glyph {}",
+                                    k, g, i, o.glyph, c_new, m
+                                ),
+                            ));
+                        }
+                        None => {
+                            new_to_old[c_new] = Some(o.glyph);
+                            queue.push_back(c_new);
+                            pulled_in = true;
+                        }
+                    }
+                    if o.glyph as usize != c_new {
+                        renumbered = true;
+                    }
+                }
+            }
+            (GlyphLite::Composite { .. }, _) | (_, GlyphLite::Composite { .. }) => {
+                return Err(fail(
+                    "glyph-differs",
+                    format!("new glyph {} vs source glyph {}: one is composite, the other is not", k, g),
+                ));
+            }
+            _ => cmp_simple_or_blank(g, k, &old, &new)?,
+        }
+    }
+    rec.class_if(pulled_in, "tt:component-pulled-in");
+    rec.class_if(renumbered, "tt:component-renumbered");
+    rec.class_if(src_unreadable, "tt:source-glyph-unreadable");
+    // every appended id must be a distinct pulled-in component
+    let mut seen_old: BTreeSet<u16> = BTreeSet::new();
+    for (k, m) in new_to_old.iter().enumerate() {
+        let g = m.ok_or_else(|| {
+            fail(
+                "unreferenced-extra-glyph",
+                format!("new glyph {} is neither requested nor referenced by a retained composite", k),
+            )
+        })?;
+        if !seen_old.insert(g) {
+            return Err(fail("glyph-duplicated", format!("source glyph {} appears twice in the subset (second time as new glyph {})", g, k)));
+        }
+        if k >= list.len() && !extra.contains(&g) {
+            return Err(fail("unexpected-extra-glyph", format!("new glyph {} = source glyph {} is not in the composite closure of the list", k, g)));
+        }
+    }
+    let new_to_old: Vec<u16> = new_to_old.into_iter().map(|m| m.unwrap()).collect();
+    // metrics
+    for (k, g) in new_to_old.iter().enumerate() {
+        let want = match src_metric(*g) {
+            Some(m) => m,
+            None => {
+                rec.class("hmtx:source-unreadable");
+                continue;
+            }
+        };
+        let got = dst.metric(k as u16).ok_or_else(|| fail("hmtx-short", format!("hmtx of the subset has no entry for new glyph {}", k)))?;
+        if got != want {
+            return Err(fail(
+                "hmtx",
+                format!("new glyph {} (source glyph {}): (advance, lsb) = {:?}, source has {:?}", k, g, got, want),
+            ));
+        }
+    }
+    if new_to_old.len() > list.len() {
+        match src.append_discovery_order(list) {
+            Ok(o) if o == new_to_old => rec.class("tt:appended-in-discovery-order"),
+            _ => rec.class("tt:appended-in-other-order"),
+        }
+    }
+    Ok(TtOutcome { new_to_old, nonblank })
+}
+
+fn tables_of_sfnt(out: &[u8]) -> Result<TtTables, Fail> {
+    TtTables::from_tables(|t| find_table(out, t).map(|s| s.to_vec())).map_err(|e| fail("output-unreadable", format!("subset output: {}", e)))
+}
+
+// ------------------------------------------------------------------------------------------
+// CFF oracle (allsorts' own outline visitor on both sides)
+
+#[derive(Clone, Debug, PartialEq, Eq)]
+enum Seg {
+    M(u32, u32),
+    L(u32, u32),
+    Q([u32; 4]),
+    C([u32; 6]),
+    Z,
+}
+
+#[derive(Default)]
+struct PathRec(Vec<Seg>);
+
+impl OutlineSink for PathRec {
+    fn move_to(&mut self, to: Vector2F) {
+        self.0.push(Seg::M(to.x().to_bits(), to.y().to_bits()));
+    }
+    fn line_to(&mut self, to: Vector2F) {
+        self.0.push(Seg::L(to.x().to_bits(), to.y().to_bits()));
+    }
+    fn quadratic_curve_to(&mut self, c: Vector2F, to: Vector2F) {
+        self.0.push(Seg::Q([c.x().to_bits(), c.y().to_bits(), to.x().to_bits(), to.y().to_bits()]));
+    }
+    fn cubic_curve_to(&mut self, c: LineSegment2F, to: Vector2F) {
+        self.0.push(Seg::C([
+            c.from_x().to_bits(),
+            c.from_y().to_bits(),
+            c.to_x().to_bits(),
+            c.to_y().to_bits(),
+            to.x().to_bits(),
+            to.y().to_bits(),
+        ]));
+    }
+    fn close(&mut self) {
+        self.0.push(Seg::Z);
+    }
+}
+
+fn render(path: &[Seg]) -> String {
+    let f = |b: &u32| f32::from_bits(*b);
+    let mut s = String::new();
+    for seg in path.iter().take(40) {
+        match seg {
+            Seg::M(x, y) => s.push_str(&format!("M{},{} ", f(x), f(y))),
+            Seg::L(x, y) => s.push_str(&format!("L{},{} ", f(x), f(y))),
+            Seg::Q(v) => s.push_str(&format!("Q{:?} ", v.iter().map(f).collect::<Vec<_>>())),
+            Seg::C(v) => s.push_str(&format!("C{:?} ", v.iter().map(f).collect::<Vec<_>>())),
+            Seg::Z => s.push_str("Z "),
+        }
+    }
+    if path.len() > 40 {
+        s.push_str(&format!("…({} segments)", path.len()));
+    }
+    s
+}
+
+type Paths = Vec<Result<Vec<Seg>, String>>;
+
+/// Drop `close` calls that close nothing (no subpath open): allsorts' CFF2 visitor emits one
+/// for a charstring without any path operator, its CFF visitor does not; neither draws anything.
+fn normalise(path: Vec<Seg>) -> Vec<Seg> {
+    let mut open = false;
+    let mut out = Vec::with_capacity(path.len());
+    for s in path {
+        match s {
+            Seg::Z => {
+                if open {
+                    out.push(Seg::Z);
+                }
+                open = false;
+            }
+            other => {
+                open = true;
+                out.push(other);
+            }
+        }
+    }
+    out
+}
+
+fn visit_all<B: OutlineBuilder>(b: &mut B, gids: impl Iterator<Item = u16>) -> Paths {
+    gids.map(|g| {
+        let mut p = PathRec::default();
+        match b.visit(g, &mut p) {
+            Ok(()) => Ok(normalise(p.0)),
+            Err(e) => Err(format!("{}", e)),
+        }
+    })
+    .collect()
+}
+
+struct CffOutInfo {
+    num_glyphs: usize,
+    cid: bool,
+    has_gsubrs: bool,
+    has_lsubrs: bool,
+}
+
+/// Paths of glyphs 0..n of the CFF table produced by the subsetter.
+fn cff_out_paths(cff_bytes: &[u8], n: usize) -> Result<(Paths, CffOutInfo), Fail> {
+    let mut cff = ReadScope::new(cff_bytes)
+        .read::<CFF<'_>>()
+        .map_err(|e| fail("output-unreadable", format!("CFF table of the subset does not parse: {:?}", e)))?;
+    let font = cff.fonts.first().ok_or_else(|| fail("output-unreadable", "CFF table of the subset has no font".into()))?;
+    let info = CffOutInfo {
+        num_glyphs: font.char_strings_index.len(),
+        cid: font.is_cid_keyed(),
+        has_gsubrs: cff.global_subr_index.len() > 0,
+        has_lsubrs: match &font.data {
+            CFFVariant::CID(c) => c.local_subr_indices.iter().any(|i| i.is_some()),
+            CFFVariant::Type1(t) => t.local_subr_index.is_some(),
+        },
+    };
+    let paths = visit_all(&mut cff, (0..n.min(info.num_glyphs)).map(|k| k as u16));
+    Ok((paths, info))
+}
+
+fn check_cff(src: &Source, list: &[u16], out: &[u8], api: &Api, seac: &dyn Fn(u16) -> Option<(u16, u16)>, rec: &mut Rec) -> Result<usize, Fail> {
+    // source paths
+    let mut src_cid = false;
+    let mut fds: BTreeSet<u8> = BTreeSet::new();
+    let src_paths: Paths = match src.kind {
+        Kind::Cff => {
+            let mut cff = match ReadScope::new(&src.cff).read::<CFF<'_>>() {
+                Ok(c) => c,
+                Err(e) => return Err(fail("skip", format!("source CFF: {:?}", e))),
+            };
+            if let Some(f) = cff.fonts.first() {
+                src_cid = f.is_cid_keyed();
+                if let CFFVariant::CID(c) = &f.data {
+                    rec.class_if(c.font_dict_index.len() > 1, "cff:source-multi-fd");
+                    for g in list {
+                        if let Some(fd) = c.fd_select.font_dict_index(*g) {
+                            fds.insert(fd);
+                        }
+                    }
+                }
+            }
+            visit_all(&mut cff, list.iter().copied())
+        }
+        Kind::Cff2 => {
+            let cff2 = match ReadScope::new(&src.cff).read::<CFF2<'_>>() {
+                Ok(c) => c,
+                Err(e) => return Err(fail("skip", format!("source CFF2: {:?}", e))),
+            };
+            rec.class_if(cff2.vstore.is_some(), "cff2:source-has-vstore");
+            rec.class_if(cff2.fonts.len() > 1, "cff2:source-multi-fd");
+            let mut o = CFF2Outlines {
+                table: &cff2,
+                tuple: None,
+            };
+            visit_all(&mut o, list.iter().copied())
+        }
+        Kind::Tt => unreachable!(),
+    };
+    rec.class_if(fds.len() > 1, "cff:list-spans-fds");
+
+    // locate the CFF table of the output
+    let bare = out.first() == Some(&1) && out.get(0..4) != Some(b"OTTO");
+    let (cff_bytes, sfnt): (Vec<u8>, bool) = if out.get(0..4) == Some(b"OTTO") {
+        (
+            find_table(out, b"CFF ").ok_or_else(|| fail("output-unreadable", "OTTO output without CFF table".into()))?.to_vec(),
+            true,
+        )
+    } else if bare {
+        (out.to_vec(), false)
+    } else {
+        return Err(fail("output-unreadable", format!("output is neither OTTO nor a CFF table: {:02x?}", &out[..out.len().min(8)])));
+    };
+    rec.class(if sfnt { "cff:output-otf" } else { "cff:output-bare-cff" });
+    if matches!(api, Api::Prince { .. }) && sfnt {
+        // documented: prince::subset returns just the CFF table for CFF sources
+        return Err(fail("prince-cff-not-bare", "prince::subset returned a complete font for a CFF source".into()));
+    }
+    let (out_paths, info) = cff_out_paths(&cff_bytes, list.len())?;
+    if info.num_glyphs != list.len() {
+        return Err(fail(
+            "num-glyphs",
+            format!("CharStrings INDEX of the subset has {} entries, {} glyphs were requested", info.num_glyphs, list.len()),
+        ));
+    }
+    rec.class_if(info.has_gsubrs, "cff:global-subrs-retained");
+    rec.class_if(info.has_lsubrs, "cff:local-subrs-retained");
+    rec.class_if(src.kind == Kind::Cff && !src_cid && info.cid, "cff:type1-to-cid");
+    rec.class_if(src.kind == Kind::Cff && !src_cid && !info.cid, "cff:type1-to-type1");
+    rec.class_if(src_cid, "cff:cid-source");
+    rec.class_if(src.kind == Kind::Cff2, if info.cid { "cff2:to-cid" } else { "cff2:to-type1" });
+
+    let mut nonblank = 0;
+    // Known limitation (see known_findings.json): the CFF subsetter does not retain the base and
+    // accent glyphs a `seac` endchar refers to, and a Type1→CID conversion leaves `seac` codes
+    // without meaning. A failure is attributed to it only for a seac glyph in exactly that
+    // situation; it is reported after all other glyphs have been compared.
+    let mut seac_failure: Option<Fail> = None;
+    let seac_unsupported = |g: u16| match seac(g) {
+        Some((b, a)) => info.cid || !list.contains(&b) || !list.contains(&a),
+        None => false,
+    };
+    for (k, g) in list.iter().enumerate() {
+        match (&src_paths[k], &out_paths[k]) {
+            (Ok(a), Ok(b)) => {
+                if !a.is_empty() {
+                    nonblank += 1;
+                }
+                if a != b {
+                    let f = fail(
+                        if seac_unsupported(*g) { "cff-seac-components-not-retained" } else { "cff-outline-differs" },
+                        format!("new glyph {} (source glyph {}): source path {} / subset path {}", k, g, render(a), render(b)),
+                    );
+                    if seac_unsupported(*g) {
+                        seac_failure.get_or_insert(f);
+                    } else {
+                        return Err(f);
+                    }
+                }
+            }
+            (Err(_), _) => {
+                // the source glyph itself cannot be drawn: nothing to preserve
+                rec.class("cff:source-glyph-undrawable");
+            }
+            (Ok(a), Err(e)) => {
+                let f = fail(
+                    if seac_unsupported(*g) { "cff-seac-components-not-retained" } else { "cff-outline-lost" },
+                    format!("new glyph {} (source glyph {}) cannot be drawn: {}; source path {}", k, g, e, render(a)),
+                );
+                if seac_unsupported(*g) {
+                    seac_failure.get_or_insert(f);
+                } else {
+                    return Err(f);
+                }
+            }
+        }
+    }
+
+    // advance widths declared by the charstrings, read by the independent CFF reader
+    let out_lite = gl::cff_width::CffLite::parse(&cff_bytes)
+        .map_err(|e| fail("cff-output-unreadable", format!("independent CFF reader on the subset's CFF table: {}", e)))?;
+    if out_lite.char_strings.len() != list.len() {
+        return Err(fail(
+            "num-glyphs",
+            format!("CharStrings INDEX of the subset has {} entries (independent reader), {} glyphs were requested", out_lite.char_strings.len(), list.len()),
+        ));
+    }
+    let src_lite = if src.kind == Kind::Cff { gl::cff_width::CffLite::parse(&src.cff).ok() } else { None };
+    let mut widths_checked = 0;
+    for (k, g) in list.iter().enumerate() {
+        let want: f64 = match (&src_lite, src.kind) {
+            (Some(sl), _) => match sl.width(*g) {
+                Ok(w) => w,
+                Err(_) => {
+                    rec.class("cff:source-width-unmodelled");
+                    continue;
+                }
+            },
+            (None, Kind::Cff2) => match src.metric(*g) {
+                Some(m) => m.0 as f64,
+                None => continue,
+            },
+            _ => {
+                rec.class("cff:source-unreadable-by-independent-reader");
+                break;
+            }
+        };
+        if src_paths[k].is_err() {
+            continue;
+        }
+        match out_lite.width(k as u16) {
+            Ok(w) if (w - want).abs() <= 1e-3 => widths_checked += 1,
+            Ok(w) => {
+                return Err(fail(
+                    if src.kind == Kind::Cff2 { "cff2-width" } else { "cff-width" },
+                    format!(
+                        "new glyph {} (source glyph {}): the charstring declares advance width {}, the source {} says {}",
+                        k,
+                        g,
+                        w,
+                        if src.kind == Kind::Cff2 { "hmtx" } else { "charstring" },
+                        want
+                    ),
+                ));
+            }
+            Err(e) => {
+                return Err(fail("cff-width-lost", format!("new glyph {} (source glyph {}): width not readable from the subset charstring: {}", k, g, e)));
+            }
+        }
+    }
+    rec.class_if(widths_checked > 0, "cff:charstring-widths-compared");
+
+    if sfnt {
+        let maxp = find_table(out, b"maxp").ok_or_else(|| fail("output-unreadable", "no maxp".into()))?;
+        let hhea = find_table(out, b"hhea").ok_or_else(|| fail("output-unreadable", "no hhea".into()))?;
+        let hmtx = find_table(out, b"hmtx").ok_or_else(|| fail("output-unreadable", "no hmtx".into()))?;
+        let n = gl::maxp_num_glyphs(maxp).ok_or_else(|| fail("output-unreadable", "short maxp".into()))?;
+        let nhm = gl::hhea_num_h_metrics(hhea).ok_or_else(|| fail("output-unreadable", "short hhea".into()))?;
+        if n as usize != list.len() {
+            return Err(fail("num-glyphs", format!("maxp.numGlyphs of the subset is {}, {} glyphs were requested", n, list.len())));
+        }
+        for (k, g) in list.iter().enumerate() {
+            let want = match src.metric(*g) {
+                Some(m) => m,
+                None => {
+                    rec.class("hmtx:source-unreadable");
+                    continue;
+                }
+            };
+            let got = gl::hmtx_metric(hmtx, nhm, k as u16).ok_or_else(|| fail("hmtx-short", format!("hmtx of the subset has no entry for new glyph {}", k)))?;
+            if got != want {
+                return Err(fail(
+                    "hmtx",
+                    format!("new glyph {} (source glyph {}): (advance, lsb) = {:?}, source has {:?}", k, g, got, want),
+                ));
+            }
+        }
+    }
+    if let Some(f) = seac_failure {
+        return Err(f);
+    }
+    Ok(nonblank)
+}
+
+// ------------------------------------------------------------------------------------------
+// cases
+
+fn classify_common(rec: &mut Rec, src: &Source, list: &[u16], api: &Api, spec: &ListSpec) {
+    rec.class(match src.kind {
+        Kind::Tt => "kind:truetype",
+        Kind::Cff => "kind:cff",
+        Kind::Cff2 => "kind:cff2",
+    });
+    rec.class(match api {
+        Api::Plain => "api:subset",
+        Api::Prince { target: 0, .. } => "api:prince-unrestricted",
+        Api::Prince { target: 1, .. } => "api:prince-macroman",
+        Api::Prince { target: 2, .. } => "api:prince-omit",
+        Api::Prince { .. } => "api:prince-supplied-cmap",
+    });
+    if let Api::Prince { cid, .. } = api {
+        rec.class(if *cid { "api:cid-switch-on" } else { "api:cid-switch-off" });
+    }
+    rec.class(match list.len() {
+        1 => "list:len=1",
+        2..=12 => "list:len=2..12",
+        13..=255 => "list:len=13..255",
+        256 => "list:len=256",
+        257..=599 => "list:len=257..599",
+        _ => "list:len>=600",
+    });
+    rec.class(match spec.order {
+        0 => "list:ascending",
+        2 => "list:descending",
+        _ => "list:shuffled",
+    });
+    rec.class_if(list.iter().any(|g| *g >= src.num_h_metrics), "hmtx:id>=numberOfHMetrics");
+    rec.class_if(src.num_h_metrics < src.num_glyphs, "hmtx:source-nhm<numGlyphs");
+    if src.kind == Kind::Tt {
+        let comps: BTreeSet<u16> = src.components.iter().copied().collect();
+        let parents: BTreeSet<u16> = src.composites.iter().copied().collect();
+        let l: BTreeSet<u16> = list.iter().copied().collect();
+        let has_parent = l.iter().any(|g| parents.contains(g));
+        let has_comp = l.iter().any(|g| comps.contains(g));
+        rec.class_if(has_parent, "list:has-composite-parent");
+        rec.class_if(has_comp && !has_parent, "list:components-without-parents");
+    }
+}
+
+/// Shared tail of both sections: run the subsetter on `font_bytes` and compare with `src`.
+fn subset_and_compare(font_bytes: &[u8], src: &Source, list: &[u16], api: &Api, spec: &ListSpec, seac: &dyn Fn(u16) -> Option<(u16, u16)>, rec: &mut Rec) -> Result<Option<(Vec<u16>, Vec<u8>)>, Fail> {
+    classify_common(rec, src, list, api, spec);
+    rec.class(match container_of(font_bytes) {
+        "woff" => "container:woff",
+        "woff2" => "container:woff2",
+        _ => "container:sfnt",
+    });
+    let out = match run_subset(font_bytes, list, api) {
+        Err(_) => {
+            rec.class("container-unreadable");
+            return Ok(None);
+        }
+        Ok(Err(e)) => {
+            // "a successful subset ...": failures are outside the statement; count them
+            rec.class(&err_class(&e));
+            return Ok(None);
+        }
+        Ok(Ok(out)) => out,
+    };
+    rec.artefact("subset", &out[..out.len().min(200_000)]);
+    match src.kind {
+        Kind::Tt => {
+            let dst = tables_of_sfnt(&out)?;
+            if parse_directory(&out).map(|d| d.0) != Some(0x0001_0000) {
+                return Err(fail("output-unreadable", "TrueType subset without sfnt version 1.0".into()));
+            }
+            let tt = src.tt.as_ref().unwrap();
+            match check_tt(tt, &|g| src.metric(g), list, &dst, rec) {
+                Ok(o) => {
+                    rec.class_if(o.new_to_old.len() > 255, "out:glyphs>255");
+                    rec.set_nontrivial(o.new_to_old.len() >= 2 && o.nonblank >= 1);
+                    Ok(Some((o.new_to_old, out)))
+                }
+                Err(f) if f.sig == "C07:skip" => Ok(None),
+                Err(f) => Err(f),
+            }
+        }
+        Kind::Cff | Kind::Cff2 => match check_cff(src, list, &out, api, seac, rec) {
+            Ok(nonblank) => {
+                rec.class_if(list.len() > 255, "out:glyphs>255");
+                rec.set_nontrivial(list.len() >= 2 && nonblank >= 1);
+                Ok(Some((list.to_vec(), out)))
+            }
+            Err(f) if f.sig == "C07:skip" => {
+                rec.class("cff:source-unreadable");
+                Ok(None)
+            }
+            Err(f) => Err(f),
+        },
+    }
+}
+
+fn check_fixture(c: &FixtureCase, thorough: bool, rec: &mut Rec) -> CaseResult {
+    let entry = match choose_entry(c.font, thorough) {
+        Some(e) => e,
+        None => {
+            rec.class("no-fixtures");
+            return Ok(());
+        }
+    };
+    let loaded = match load(&entry.path) {
+        Some(l) => l,
+        None => {
+            rec.class("fixture-unusable");
+            return Ok(());
+        }
+    };
+    let src = &loaded.source;
+    let list = build_list(src.num_glyphs, &src.composites, &src.components, &c.list);
+    let rewrap = c.rewrap && src.container == "sfnt" && loaded.bytes.len() <= 700 << 10;
+    let font_bytes: &[u8] = if rewrap {
+        match loaded.rewrapped.get_or_init(|| woff1_wrap(&loaded.bytes)) {
+            Some(w) => w,
+            None => &loaded.bytes,
+        }
+    } else {
+        &loaded.bytes
+    };
+    rec.class_if(rewrap, "container:rewrapped-by-fontgen");
+    rec.hash_bytes(src.name.as_bytes());
+    rec.hash_bytes(&[rewrap as u8]);
+    rec.hash_bytes(format!("{:?}{:?}", c.api, list).as_bytes());
+    rec.sample(|| format!("{} ({}) api={:?} list={}", src.name, container_of(font_bytes), c.api, truncate(&format!("{:?}", list), 200)));
+    rec.artefact("glyph-ids", format!("{} {:?}", src.name, list).as_bytes());
+    subset_and_compare(font_bytes, src, &list, &c.api, &c.list, &|_| None, rec).map(|_| ())
+}
+
+fn model_to_lite(g: &GlyphModel) -> GlyphLite {
+    match g {
+        GlyphModel::Empty => GlyphLite::Empty,
+        GlyphModel::Simple(s) => {
+            let s: &SimpleGlyph = s;
+            GlyphLite::Simple {
+                bbox: s.bbox(),
+                contours: s
+                    .contours
+                    .iter()
+                    .filter(|c| !c.is_empty())
+                    .map(|c| c.iter().map(|p| (p.0 as i32, p.1 as i32, p.2)).collect())
+                    .collect(),
+                instructions: s.instructions.clone(),
+            }
+        }
+        GlyphModel::Composite {
+            bbox,
+            comps,
+            instructions,
+        } => GlyphLite::Composite {
+            bbox: *bbox,
+            components: comps
+                .iter()
+                .map(|c| Component {
+                    glyph: c.glyph,
+                    flags: c.flags,
+                    args: match c.args {
+                        ArgsModel::Xy(x, y) => Args::Xy(x, y),
+                        ArgsModel::Points(p, q) => Args::Points(p, q),
+                    },
+                    transform: match c.transform {
+                        TransformModel::None => Transform::None,
+                        TransformModel::Scale(s) => Transform::Scale(s),
+                        TransformModel::XY(x, y) => Transform::XY(x, y),
+                        TransformModel::Matrix(m) => Transform::Matrix(m),
+                    },
+                })
+                .collect(),
+            instructions: instructions.clone().unwrap_or_default(),
+        },
+    }
+}
+
+fn check_generated(c: &GenCase, rec: &mut Rec) -> CaseResult {
+    let m = &c.model;
+    let sfnt = m.build();
+    let src = analyse("generated", &sfnt).expect("generated font must be readable by the harness's own readers");
+    let tt = src.tt.as_ref().expect("generated font is TrueType");
+    // forward construction: my reader must give back the model on the source font
+    for g in 0..src.num_glyphs {
+        let got = tt.glyph(g).expect("generated glyph must parse");
+        assert_eq!(got, model_to_lite(&m.glyphs[g as usize]), "glyph {} of the generated font does not read back", g);
+        assert_eq!(src.metric(g), Some(m.metric(g)), "metric {} of the generated font does not read back", g);
+    }
+    let list = build_list(src.num_glyphs, &src.composites, &src.components, &c.list);
+    let wrapped;
+    let font_bytes: &[u8] = if c.rewrap {
+        wrapped = woff1_wrap(&sfnt).expect("woff wrapper");
+        &wrapped
+    } else {
+        &sfnt
+    };
+    rec.class_if(c.rewrap, "container:rewrapped-by-fontgen");
+    rec.artefact("font", font_bytes);
+    rec.artefact("glyph-ids", format!("{:?}", list).as_bytes());
+    rec.hash_bytes(&sfnt);
+    rec.hash_bytes(format!("{:?}{:?}{}", c.api, list, c.rewrap).as_bytes());
+    rec.sample(|| {
+        format!(
+            "generated {} glyphs (nhm {}, {} composites) api={:?} list={}",
+            src.num_glyphs,
+            src.num_h_metrics,
+            src.composites.len(),
+            c.api,
+            truncate(&format!("{:?}", list), 200)
+        )
+    });
+    let max_depth = list.iter().map(|g| m.depth(*g)).max().unwrap_or(0);
+    rec.class(&format!("gen:depth={}", max_depth));
+    rec.class_if(m.long_loca, "gen:long-loca");
+    // shared component: some glyph is referenced by two different retained parents
+    let mut refs: BTreeMap<u16, BTreeSet<u16>> = BTreeMap::new();
+    if let Ok(cl) = tt.closure(&list) {
+        for g in &cl {
+            if let GlyphModel::Composite { comps, .. } = &m.glyphs[*g as usize] {
+                for c in comps {
+                    refs.entry(c.glyph).or_default().insert(*g);
+                }
+            }
+        }
+    }
+    rec.class_if(refs.values().any(|p| p.len() > 1), "gen:shared-component");
+    let in_list: BTreeSet<u16> = list.iter().copied().collect();
+    rec.class_if(
+        refs.iter().any(|(c, ps)| in_list.contains(c) && ps.iter().any(|p| in_list.contains(p) && list.iter().position(|x| x == c) < list.iter().position(|x| x == p))),
+        "gen:component-listed-before-parent",
+    );
+    rec.class_if(
+        refs.iter().any(|(c, ps)| in_list.contains(c) && ps.iter().any(|p| in_list.contains(p) && list.iter().position(|x| x == c) > list.iter().position(|x| x == p))),
+        "gen:component-listed-after-parent",
+    );
+    let mapping = subset_and_compare(font_bytes, &src, &list, &c.api, &c.list, &|_| None, rec)?;
+    if let Some((new_to_old, out)) = mapping {
+        // and the subset against the model itself (not only old-vs-new through one reader)
+        let dst = tables_of_sfnt(&out)?;
+        for (k, g) in new_to_old.iter().enumerate() {
+            let want = m.metric(*g);
+            if dst.metric(k as u16) != Some(want) {
+                return Err(fail("hmtx", format!("new glyph {} (model glyph {}): {:?}, model says {:?}", k, g, dst.metric(k as u16), want)));
+            }
+            if let (GlyphModel::Simple(_), Ok(got)) = (&m.glyphs[*g as usize], dst.glyph(k as u16)) {
+                if got != model_to_lite(&m.glyphs[*g as usize]) {
+                    return Err(fail("glyph-differs", format!("new glyph {} differs from model glyph {}: {:?}", k, g, got)));
+                }
+            }
+        }
+    }
+    Ok(())
+}
+
+fn check_generated_cff(c: &GenCffCase, rec: &mut Rec) -> CaseResult {
+    let m = &c.model;
+    let otf = m.build_otf();
+    let src = analyse("generated-cff", &otf).expect("generated CFF font must be readable by the harness's own readers");
+    // forward construction: the independent width reader must give back the model
+    let lite = gl::cff_width::CffLite::parse(&src.cff).expect("generated CFF table must parse");
+    assert_eq!(lite.char_strings.len(), m.glyphs.len());
+    for (g, gm) in m.glyphs.iter().enumerate() {
+        assert_eq!(lite.width(g as u16), Ok(gm.width as f64), "width of generated glyph {}", g);
+        assert_eq!(src.metric(g as u16), Some((gm.width, gm.lsb)));
+    }
+    let list = build_list(src.num_glyphs, &[], &[], &c.list);
+    let wrapped;
+    let font_bytes: &[u8] = if c.rewrap {
+        wrapped = woff1_wrap(&otf).expect("woff wrapper");
+        &wrapped
+    } else {
+        &otf
+    };
+    rec.class_if(c.rewrap, "container:rewrapped-by-fontgen");
+    rec.artefact("font", font_bytes);
+    rec.artefact("glyph-ids", format!("{:?}", list).as_bytes());
+    rec.hash_bytes(&otf);
+    rec.hash_bytes(format!("{:?}{:?}{}", c.api, list, c.rewrap).as_bytes());
+    rec.sample(|| {
+        format!(
+            "generated CFF {} glyphs cid={} gsubrs={} lsubrs={:?} api={:?} list={}",
+            m.glyphs.len(),
+            m.cid,
+            m.n_gsubrs,
+            m.fds.iter().map(|f| f.n_lsubrs).collect::<Vec<_>>(),
+            c.api,
+            truncate(&format!("{:?}", list), 200)
+        )
+    });
+    // classes: which subroutine INDEX sizes are in play for the retained glyphs
+    let bias_class = |n: usize| match n {
+        0 => "none",
+        1..=1239 => "bias107",
+        1240..=33899 => "bias1131",
+        _ => "bias32768",
+    };
+    let mut uses_l = BTreeSet::new();
+    let mut uses_g = false;
+    let mut nested = false;
+    let mut fds_used = BTreeSet::new();
+    for g in &list {
+        let gm = &m.glyphs[*g as usize];
+        fds_used.insert(gm.fd);
+        if gm.start.is_some() {
+            for s in &gm.segs {
+                match s {
+                    cffgen::Seg::Local(k) => {
+                        uses_l.insert(bias_class(m.fds[gm.fd as usize].n_lsubrs));
+                        if cffgen::nested_global(*k, m.n_gsubrs).is_some() {
+                            nested = true;
+                        }
+                    }
+                    cffgen::Seg::Global(_) => uses_g = true,
+                    _ => {}
+                }
+            }
+        }
+    }
+    for b in uses_l {
+        rec.class(&format!("gencff:local-subr-used:{}", b));
+    }
+    rec.class_if(uses_g, &format!("gencff:global-subr-used:{}", bias_class(m.n_gsubrs)));
+    rec.class_if(nested, "gencff:nested-subr-call");
+    rec.class(if m.cid { "gencff:cid-keyed" } else { "gencff:name-keyed" });
+    rec.class_if(m.cid && m.fds.len() > 1, "gencff:multi-fd");
+    rec.class_if(fds_used.len() > 1, "gencff:list-spans-fds");
+    // sanity of the builder (not asserted, only counted): allsorts draws the model's path
+    if let Ok(mut cff) = ReadScope::new(&src.cff).read::<CFF<'_>>() {
+        let probe: Vec<u16> = list.iter().copied().take(8).collect();
+        let paths = visit_all(&mut cff, probe.iter().copied());
+        let agree = probe.iter().zip(paths.iter()).all(|(g, p)| match p {
+            Ok(p) => {
+                let want: Vec<(char, Vec<i32>)> = m.path(&m.glyphs[*g as usize]).into_iter().filter(|s| s.0 != 'Z').collect();
+                let got: Vec<(char, Vec<i32>)> = p
+                    .iter()
+                    .filter_map(|s| match s {
+                        Seg::M(x, y) => Some(('M', vec![f32::from_bits(*x) as i32, f32::from_bits(*y) as i32])),
+                        Seg::L(x, y) => Some(('L', vec![f32::from_bits(*x) as i32, f32::from_bits(*y) as i32])),
+                        Seg::C(v) => Some(('C', v.iter().map(|b| f32::from_bits(*b) as i32).collect())),
+                        Seg::Q(v) => Some(('Q', v.iter().map(|b| f32::from_bits(*b) as i32).collect())),
+                        Seg::Z => None,
+                    })
+                    .collect();
+                want == got
+            }
+            Err(_) => false,
+        });
+        rec.class(if agree { "gencff:source-path=model" } else { "gencff:source-path!=model" });
+    }
+    rec.class_if(list.iter().any(|g| m.glyphs[*g as usize].seac.is_some()), "gencff:seac-glyph-retained");
+    let seac = |g: u16| m.glyphs.get(g as usize).and_then(|gm| gm.seac).map(|s| (s.2, s.3));
+    subset_and_compare(font_bytes, &src, &list, &c.api, &c.list, &seac, rec).map(|_| ())
+}
+
+// ------------------------------------------------------------------------------------------
+// cross-check of the independent glyf reader against allsorts' parser on intact fixtures
+
+fn crosscheck_reader(i: u64, rec: &mut Rec) -> CaseResult {
+    use allsorts::tables::glyf::{CompositeGlyphFlag, CompositeGlyphScale, GlyfTable, Glyph};
+    use allsorts::tables::loca::LocaTable;
+    use allsorts::tables::IndexToLocFormat;
+    let cat = catalogue();
+    let entry = match cat.get(i as usize) {
+        Some(e) => e,
+        None => return Ok(()),
+    };
+    let loaded = match load(&entry.path) {
+        Some(l) => l,
+        None => return Ok(()),
+    };
+    let tt = match &loaded.source.tt {
+        Some(t) => t,
+        None => return Ok(()),
+    };
+    let fmt = if tt.long_loca { IndexToLocFormat::Long } else { IndexToLocFormat::Short };
+    let loca = match ReadScope::new(&tt.loca).read_dep::<LocaTable<'_>>((tt.num_glyphs as usize, fmt)) {
+        Ok(l) => l,
+        Err(_) => return Ok(()),
+    };
+    let mut glyf = match ReadScope::new(&tt.glyf).read_dep::<GlyfTable<'_>>(&loca) {
+        Ok(g) => g,
+        Err(_) => return Ok(()),
+    };
+    let mut compared = 0u64;
+    for g in 0..tt.num_glyphs {
+        let theirs = glyf.get_parsed_glyph(g);
+        let mine = tt.glyph(g);
+        let (theirs, mine) = match (theirs, mine) {
+            (Ok(t), Ok(m)) => (t, m),
+            (Err(_), Err(_)) => continue,
+            (t, m) => {
+                return Err(fail(
+                    "reader-crosscheck",
+                    format!("{} glyph {}: allsorts {:?}, independent reader {:?}", entry.path, g, t.map(|_| "parses").map_err(|e| format!("{:?}", e)), m.map(|_| "parses")),
+                ));
+            }
+        };
+        let same = match (theirs, &mine) {
+            (Glyph::Empty(_), m) => m.is_blank(),
+            (Glyph::Simple(s), GlyphLite::Simple { bbox, contours, instructions }) => {
+                let pts: Vec<(i32, i32, bool)> = s.coordinates.iter().map(|(f, p)| (p.0 as i32, p.1 as i32, f.is_on_curve())).collect();
+                let flat: Vec<(i32, i32, bool)> = contours.iter().flatten().copied().collect();
+                let ends: Vec<u16> = contours
+                    .iter()
+                    .scan(0usize, |acc, c| {
+                        *acc += c.len();
+                        Some((*acc - 1) as u16)
+                    })
+                    .collect();
+                pts == flat
+                    && ends == s.end_pts_of_contours
+                    && instructions.as_slice() == s.instructions
+                    && *bbox == (s.bounding_box.x_min, s.bounding_box.y_min, s.bounding_box.x_max, s.bounding_box.y_max)
+            }
+            (Glyph::Composite(c), GlyphLite::Composite { bbox, components, instructions }) => {
+                *bbox == (c.bounding_box.x_min, c.bounding_box.y_min, c.bounding_box.x_max, c.bounding_box.y_max)
+                    && instructions.as_slice() == c.instructions
+                    && components.len() == c.glyphs.len()
+                    && components.iter().zip(c.glyphs.iter()).all(|(m, t)| {
+                        let a1 = i32::from(t.argument1);
+                        let a2 = i32::from(t.argument2);
+                        let args_ok = match m.args {
+                            Args::Xy(x, y) => t.flags.contains(CompositeGlyphFlag::ARGS_ARE_XY_VALUES) && (x as i32, y as i32) == (a1, a2),
+                            Args::Points(p, q) => !t.flags.contains(CompositeGlyphFlag::ARGS_ARE_XY_VALUES) && (p as i32, q as i32) == (a1, a2),
+                        };
+                        let tr_ok = match (m.transform, t.scale) {
+                            (Transform::None, None) => true,
+                            (Transform::Scale(s), Some(CompositeGlyphScale::Scale(v))) => s == v.raw_value(),
+                            (Transform::XY(x, y), Some(CompositeGlyphScale::XY { x_scale, y_scale })) => x == x_scale.raw_value() && y == y_scale.raw_value(),
+                            (Transform::Matrix(a), Some(CompositeGlyphScale::Matrix(b))) => {
+                                a == [b[0][0].raw_value(), b[0][1].raw_value(), b[1][0].raw_value(), b[1][1].raw_value()]
+                            }
+                            _ => false,
+                        };
+                        m.glyph == t.glyph_index && m.flags == t.flags.bits() & gl::SEMANTIC_FLAGS && args_ok && tr_ok
+                    })
+            }
+            _ => false,
+        };
+        if !same {
+            return Err(fail(
+                "reader-crosscheck",
+                format!("{} glyph {}: independent reader {} / allsorts {}", entry.path, g, truncate(&format!("{:?}", mine), 400), truncate(&format!("{:?}", theirs), 400)),
+            ));
+        }
+        compared += 1;
+    }
+    rec.evaluations(compared);
+    rec.class("crosscheck:font");
+    rec.hash_bytes(entry.path.as_bytes());
+    rec.sample(|| format!("{}: {} glyphs read identically by allsorts and the independent reader", entry.path, compared));
+    rec.set_nontrivial(compared >= 2);
+    Ok(())
+}
 
 impl Property for C07 {
     fn id(&self) -> &'static str {
         "C07"
     }
     fn rule(&self) -> String {
-        "not implemented".to_string()
+        "cases are (font, glyph id list, API option) triples: fonts are the fixture fonts under tests/fonts (TrueType, CFF name-keyed and CID-keyed, CFF2; \
+         as sfnt, as WOFF/WOFF2 fixtures and re-wrapped as WOFF by the harness) and generated TrueType fonts (nested composites to depth 4, shared components, \
+         numberOfHMetrics < numGlyphs) and generated CFF fonts (name-keyed and CID-keyed with 1-3 Font DICTs, global/local subroutine INDEXes sized around the \
+         bias edges 1240 and 33900, nested subroutine calls, seac glyphs); lists are [0] ++ distinct ids of size 1-12 mostly, sometimes 250-300 and ~600, ascending/shuffled/descending, biased to \
+         composite parents or to components. A case is non-trivial when the subset succeeded, at least 2 glyphs were retained and at least one retained glyph \
+         has an outline; distinct = distinct (font, list, API option, container)."
+            .into()
     }
-    fn run(&self, _ctx: &mut Ctx) {}
+    fn assumptions(&self) -> Vec<String> {
+        vec![
+            "TrueType outputs and bare-sfnt sources are read only by the harness's own sfnt/glyf/loca/hmtx readers (cross-checked against allsorts' glyf parser on every fixture glyph in section reader-crosscheck)".into(),
+            "CFF and CFF2 outlines are compared through allsorts' own charstring visitor on both the source and the subset (its Type 2 semantics are C18's subject)".into(),
+            "for WOFF/WOFF2 fixture sources the 'source font' is the set of tables the provider hands to the subsetter (container decoding is C10/C11's subject); sources re-wrapped as WOFF by the harness are compared with the original sfnt".into(),
+            "generated CFF fonts are accepted as faithful because allsorts' visitor draws exactly the model path on the source (class gencff:source-path=model, measured) and the independent width reader returns the model widths (asserted)".into(),
+            "the order of the appended component glyphs is not asserted (only that they are exactly the composite closure, each once, after the requested glyphs)".into(),
+            "an Err from the subsetter is outside the statement ('a successful subset') and only counted".into(),
+        ]
+    }
+    fn run(&self, ctx: &mut Ctx) {
+        let thorough = ctx.thorough();
+        let n = ctx.cases(30_000, 600_000);
+        ctx.section(
+            "fixtures",
+            n,
+            (any::<u32>(), list_strategy(true), api_strategy(), prop::bool::weighted(0.15)).prop_map(|(font, list, api, rewrap)| FixtureCase { font, list, api, rewrap }),
+            move |c, rec| check_fixture(c, thorough, rec),
+        );
+        let n = ctx.cases(30_000, 600_000);
+        ctx.section(
+            "generated",
+            n,
+            (tt_model(), list_strategy(false), api_strategy(), prop::bool::weighted(0.1)).prop_map(|(model, list, api, rewrap)| GenCase { model, list, api, rewrap }),
+            |c, rec| check_generated(c, rec),
+        );
+        let n = ctx.cases(16_000, 300_000);
+        ctx.section(
+            "generated-cff",
+            n,
+            (cff_model(), list_strategy(false), api_strategy(), prop::bool::weighted(0.1)).prop_map(|(model, list, api, rewrap)| GenCffCase { model, list, api, rewrap }),
+            |c, rec| check_generated_cff(c, rec),
+        );
+        let n = catalogue().len() as u64;
+        ctx.enumerate("reader-crosscheck", n, false, |i, rec| crosscheck_reader(i, rec));
+    }
 }
